@@ -228,16 +228,44 @@ func (p *runePred) eval(e ast.Expr) runeSet {
 					}
 				}
 			}
-			// a predicate of the repository: func(r rune) bool { return <expr> }
-			if q := p.c.Pkgs[cal.Pkg().Path()]; q != nil && len(t.Args) == 1 && p.isVar(t.Args[0]) && p.depth < 4 {
-				if fd := findFuncDecl(q, cal); fd != nil && fd.Body != nil && len(fd.Body.List) == 1 && fd.Type.Params.NumFields() == 1 && len(fd.Type.Params.List[0].Names) == 1 {
-					if ret, ok := fd.Body.List[0].(*ast.ReturnStmt); ok && len(ret.Results) == 1 {
-						sub := &runePred{c: p.c, pkg: q, v: q.TypesInfo.Defs[fd.Type.Params.List[0].Names[0]], assume: p.assume, depth: p.depth + 1}
-						r := sub.eval(ret.Results[0])
-						if sub.fail != "" {
-							p.fail = sub.fail
+			// a predicate of the repository: func(r rune) bool { return <expr> }, also with boolean flags
+			// (func(r rune, first bool) bool) and written as a tagless switch whose clauses return
+			if q := p.c.Pkgs[cal.Pkg().Path()]; q != nil && len(t.Args) >= 1 && p.depth < 4 {
+				if fd := findFuncDecl(q, cal); fd != nil && fd.Body != nil && fd.Recv == nil && fd.Type.Params != nil {
+					var params []*ast.Ident
+					for _, fl := range fd.Type.Params.List {
+						params = append(params, fl.Names...)
+					}
+					var runeParam types.Object
+					subAssume := map[string]bool{}
+					okArgs := len(params) == len(t.Args)
+					for i := 0; okArgs && i < len(params); i++ {
+						switch {
+						case p.isVar(t.Args[i]) && runeParam == nil:
+							runeParam = q.TypesInfo.Defs[params[i]]
+						default:
+							// a boolean argument whose value is known here
+							a := ast.Unparen(t.Args[i])
+							if v, known := p.assume[nodeStr(p.c.Fset, a)]; known {
+								subAssume[params[i].Name] = v
+							} else if tv := info.Types[a]; tv.Value != nil && tv.Value.Kind() == constant.Bool {
+								subAssume[params[i].Name] = constant.BoolVal(tv.Value)
+							} else {
+								okArgs = false
+							}
 						}
-						return r
+					}
+					if okArgs && runeParam != nil {
+						sub := &runePred{c: p.c, pkg: q, v: runeParam, assume: subAssume, depth: p.depth + 1}
+						if len(params) == 1 {
+							sub.assume = p.assume
+						}
+						if res, ok := sub.evalBody(fd.Body); ok {
+							if sub.fail != "" {
+								p.fail = sub.fail
+							}
+							return res
+						}
 					}
 				}
 			}
@@ -276,4 +304,62 @@ func hex4(r rune) string {
 		r >>= 4
 	}
 	return s
+}
+
+// evalBody evaluates the body of a predicate: a single return, or a tagless
+// switch whose clauses are single returns (first match wins), optionally
+// followed by a final return.
+func (p *runePred) evalBody(body *ast.BlockStmt) (runeSet, bool) {
+	if len(body.List) == 1 {
+		if ret, ok := body.List[0].(*ast.ReturnStmt); ok && len(ret.Results) == 1 {
+			return p.eval(ret.Results[0]), true
+		}
+	}
+	if len(body.List) == 0 || len(body.List) > 2 {
+		return nil, false
+	}
+	sw, ok := body.List[0].(*ast.SwitchStmt)
+	if !ok || sw.Tag != nil || sw.Init != nil {
+		return nil, false
+	}
+	var final ast.Expr
+	if len(body.List) == 2 {
+		ret, ok := body.List[1].(*ast.ReturnStmt)
+		if !ok || len(ret.Results) != 1 {
+			return nil, false
+		}
+		final = ret.Results[0]
+	}
+	remaining := rsAll()
+	var res runeSet
+	var def *ast.CaseClause
+	for _, cl := range sw.Body.List {
+		cc := cl.(*ast.CaseClause)
+		if len(cc.Body) != 1 {
+			return nil, false
+		}
+		ret, ok := cc.Body[0].(*ast.ReturnStmt)
+		if !ok || len(ret.Results) != 1 {
+			return nil, false
+		}
+		if cc.List == nil {
+			def = cc
+			continue
+		}
+		var cond runeSet
+		for _, e := range cc.List {
+			cond = rsUnion(cond, p.eval(e))
+		}
+		cond = rsIntersect(cond, remaining)
+		res = rsUnion(res, rsIntersect(cond, p.eval(ret.Results[0])))
+		remaining = rsMinus(remaining, cond)
+	}
+	if def != nil {
+		res = rsUnion(res, rsIntersect(remaining, p.eval(def.Body[0].(*ast.ReturnStmt).Results[0])))
+	} else if final != nil {
+		res = rsUnion(res, rsIntersect(remaining, p.eval(final)))
+	} else {
+		return nil, false
+	}
+	return res, true
 }
